@@ -33,5 +33,5 @@ JudgeWith(s, exp) ==
     /\ AllZero => PrintT(ToJson(<<"J", cid, TopologicalFast(C.order)>>))
 \* the netlist never changes: states are identified by configuration and vector only
 View == <<cid, iv>>
-Judge == JudgeWith(PropAll(val, C.order), CombRef(C.kind, C.c, iv, C.iw, C.ow))
+Judge == JudgeWith(PropAll(val, C.order), CombRefA(C.kind, C.c, iv, C.iw, C.ow))
 =============================================================================
